@@ -14,14 +14,15 @@ from ufl import avg, conditional, div, dot, ds, dS, dx, grad, inner, jump, lt
 from .corpus import GD, mesh, space
 
 
-def name_of(seed, i):
-    return f"rand:{seed}:{i}"
+def name_of(seed, i, cplx=False):
+    return f"{'randc' if cplx else 'rand'}:{seed}:{i}"
 
 
 class Gen:
-    def __init__(self, seed, i):
-        self.r = random.Random(seed * 1000003 + i * 7919 + 17)
+    def __init__(self, seed, i, cplx=False):
+        self.r = random.Random(seed * 1000003 + i * 7919 + (17 if not cplx else 40017))
         self.info = {}
+        self.cplx = cplx
 
     def pick(self, xs, w=None):
         return self.r.choices(list(xs), weights=w)[0] if w else self.r.choice(list(xs))
@@ -76,7 +77,11 @@ class Gen:
                 kinds += ["normal"]
             if gdeg == 1 and cell in ("triangle", "tetrahedron", "interval"):
                 kinds += ["h"]
+            if self.cplx:
+                kinds += ["clit"]
             k = self.pick(kinds)
+            if k == "clit":
+                return ufl.as_ufl(self.pick([1.0 + 2.0j, -0.5j, 2.0 - 1.0j]))
             if k == "lit":
                 return ufl.as_ufl(self.pick([0.5, 2.0, -1.5, 3.0]))
             if k == "x":
@@ -106,6 +111,28 @@ class Gen:
         def scal(depth):
             if depth == 0 or r.random() < 0.3:
                 return scal_atom()
+            if self.cplx:
+                op = self.pick(["add", "mul", "sub", "conj", "real", "imag", "abs", "neg", "condc", "pow2"], [4, 5, 2, 2, 2, 2, 1, 1, 1, 1])
+                a = scal(depth - 1)
+                if op == "add":
+                    return a + scal(depth - 1)
+                if op == "mul":
+                    return a * scal(depth - 1)
+                if op == "sub":
+                    return a - scal(depth - 1)
+                if op == "conj":
+                    return ufl.conj(a)
+                if op == "real":
+                    return ufl.real(a)
+                if op == "imag":
+                    return ufl.imag(a)
+                if op == "abs":
+                    return abs(a)
+                if op == "neg":
+                    return -a
+                if op == "pow2":
+                    return a ** 2
+                return conditional(lt(ufl.real(a), ufl.real(scal_atom())), scal(depth - 1), self.pick([1.5, ufl.as_ufl(1.0j)]))
             op = self.pick(["add", "mul", "sub", "div", "pow", "abs", "sqrt", "exp", "cond", "max", "neg"], [4, 5, 2, 1, 2, 1, 1, 1, 1, 1, 1])
             a = scal(depth - 1)
             if op in ("add", "mul", "sub", "div", "max"):
@@ -124,6 +151,20 @@ class Gen:
             if op == "cond":
                 return conditional(lt(a, scal_atom()), scal(depth - 1), 1.5)
             raise ValueError(op)
+
+        def cplx_term(S):
+            """sesquilinear term: inner(S * trial-part, test-part) (UFL conjugates the test side)"""
+            def one(a):
+                el = a.ufl_function_space().ufl_element()
+                if el.embedded_superdegree >= 1 and r.random() < 0.4:
+                    return restrict(grad(a)[r.randrange(gd)])
+                return restrict(a)
+            if arity == 0:
+                return S
+            z = self.pick([1, 1, ufl.as_ufl(2.0 + 3.0j), ufl.as_ufl(-1.0j)])
+            if arity == 1:
+                return inner(S, z * one(v))
+            return inner(S * one(u), z * one(v))
 
         def argpart():
             if arity == 0:
@@ -157,6 +198,8 @@ class Gen:
         for _ in range(nterms):
             if last is not None and r.random() < 0.35:
                 integrand = last  # the same integrand again under (possibly) different metadata / subdomain
+            elif self.cplx:
+                integrand = cplx_term(scal(r.randint(0, 2)))
             else:
                 integrand = scal(r.randint(0, 2)) * argpart()
             last = integrand
@@ -166,13 +209,13 @@ class Gen:
 
 
 def build(name):
-    _, seed, i = name.split(":")
-    return Gen(int(seed), int(i)).build()
+    kind, seed, i = name.split(":")
+    return Gen(int(seed), int(i), cplx=(kind == "randc")).build()
 
 
 def describe(name):
-    _, seed, i = name.split(":")
-    g = Gen(int(seed), int(i))
+    kind, seed, i = name.split(":")
+    g = Gen(int(seed), int(i), cplx=(kind == "randc"))
     try:
         f = g.build()
         s = str(f)
